@@ -86,6 +86,23 @@ FIRST = {
  'C15g': ('missed', 'the peer always started while the watcher was still announcing; late-joiner cases (peer starts 1.4 s later and learns from the reply to its own query) added for all three mode pairs'),
  'C18g': ('missed', 'opaque records were only built under codes without a type; RData::NULL(code, ..) for every code 0..=65535 must report and match the type the code denotes'),
  'C20d': ('missed', 'at most a handful of records per name; stores of 1..500 records in one bucket with the authoritative record first / middle / last added'),
+ # round 8, adversarial again (first encounter measured against the checks of commit b33433a, seeded/_results/first_encounter_round8.txt)
+ 'C01h': ('missed', 'a debug_assert that fails for header RCODE nibble 11..15 together with an OPT whose extended-RCODE byte is 0xff: the harness was built without debug assertions and never varied the two fields together; debug assertions switched on, every flags word x every OPT TTL byte added (R9)'),
+ 'C02h': ('missed', 'class and cache-flush bit dropped for TYPE codes 249/250 only; every 16-bit TYPE code x 5 classes x cache-flush bit added'),
+ 'C03h': ('missed', 'RDLENGTH back-patch through a signed 16-bit seek offset: only RDATA of 32768..65535 bytes shows it; a record with RDATA of exactly 255..65535 bytes (19 lengths) added to the shared size families'),
+ 'C06h': ('missed', 'cursor one byte short after exactly 254 in-place label bytes closed by a pointer to a bare root byte; every amount 0..=257 of in-place label bytes x {pointer to a root byte, pointer to a name, root} added'),
+ 'C08h': ('missed', 'compressed writer announced fewer additional records than it wrote when the packet has an OPT and a hand-placed OPT record; counts-with-EDNS family judged by an independent walker added'),
+ 'C09h': ('missed', 'more than 1024 options in one OPT record rejected; option lists with 50..5000 distinct codes added'),
+ 'C10h': ('missed', 'an NSEC value with 256 windows held out of order was written with no windows at all; in-memory window orders (permutations of <= 4, 36..256 windows reversed / rotated / swapped / interleaved) added to C10'),
+ 'C12h': ('missed', 'Display with the alternate flag ({:#}) returned Err on non-UTF-8 text; every Display / Debug implementation is now also driven with format specifications'),
+ 'C13h': ('missed', 'running responders read queries into a 4096-byte buffer; query datagrams of 600..9000 bytes with one answerable question first or last added to the responder stage'),
+ 'C14h': ('missed', 'recursive read lock inside a log::debug! argument deadlocks announce() against the receive loop: needs a logger at debug level and an application thread racing the receive loop; second pass under a TRACE-level logger and an application-thread phase (stall = wedge; free-running, not exhaustive) added'),
+ 'C15h': ('missed', 'a log::trace! argument drained the record iterator, so get_known_services was empty whenever trace logging was on; every simple-mdns property now runs a second pass under a TRACE-level logger that formats every record'),
+ 'C16h': ('missed', 'hash partitioned the sets by iteration order once they had more than 16 members; independently built equal values with 16..300 members per set added'),
+ 'C17h': ('missed', 'Name::new looked at the first 127 labels only; every label count 1..=300 of short labels (and a long / over-long label after them) added'),
+ 'C18h': ('missed', 'class 255 aliased onto NONE for UPDATE messages with TTL 0 and empty RDATA; every 16-bit CLASS field x every opcode x 5 record shapes added'),
+ 'C19h': ('missed', 'TXT::try_from(&str) refused texts whose RDATA would exceed 65535 bytes; split / join of long texts (around 2^12..2^16 and up to 2^20 bytes) added'),
+ 'C20h': ('missed', 'sync receive loop parsed the whole reused buffer, so a runt datagram re-ingested the previous announcement; after the real-clock expiry, datagrams that carry no fresh record (bare headers, truncated copies, the announcement as a query) must not bring the peer back'),
 }
 def load_jsonl(pattern):
     out = {}
@@ -112,7 +129,7 @@ for d in sorted(os.listdir(S)):
             'suite_with_patch_exit': c.get('suite_with_patch_exit'), 'suite_tests_passed_incl_doctests': c.get('suite_tests_passed'),
             'demo_with_patch_exit': c.get('demo_with_patch_exit'), 'demo_without_patch_exit': c.get('demo_without_patch_exit'),
         },
-        'checks_run': 'tools/eval_seed_all.sh: git -C /repo apply patch.diff; every quick check; git -C /repo checkout -- .',
+        'checks_run': ('tools/run_seed.sh: git -C /repo apply patch.diff; the quick check of the seed\'s own property; git -C /repo checkout -- . (round 8 was not run against the other 19 checks)' if e.get('scope') == 'own' else 'tools/eval_seed_all.sh: git -C /repo apply patch.diff; every quick check; git -C /repo checkout -- .'),
         'caught_by': e.get('caught_by'), 'exit_codes': e.get('exit'),
         'first_encounter': {'result': FIRST.get(d, ('caught', ''))[0], 'what_was_strengthened': FIRST.get(d, ('caught', ''))[1]},
     }
